@@ -10,7 +10,7 @@ from ..common import import_lazy_dataset, exc_sig
 PROPERTY = 'C15'
 LEVEL = 'exploration'
 RULE = ('exhaustive enumeration of (n, k, backing) with 0<=n<=N, -1<=k<=n+2, '
-        'backing in {list, dict}; a case is one (n, k, backing); non-trivial '
+        'backing in {list, dict, dict behind map / nested slice / 3-way concatenation / cache}; a case is one (n, k, backing); non-trivial '
         'iff 1<=k<=n (parts were observed) or the refusal was observed; '
         'distinct by (n, k, backing)')
 ASSUMPTIONS = ['source examples are the integers 0..n-1 (unique ids), so a '
@@ -31,14 +31,31 @@ def shards(tier, seed):
     for j in range(J):
         out.append({'name': f'dict{j}', 'backing': 'dict', 'mod': J, 'rem': j,
                     'N': lim['ND'], 'all_i': lim['NSHARD_ALL']})
+    for backing in ('dict-map', 'dict-slice', 'dict-concat', 'dict-cache'):
+        for j in range(2):
+            out.append({'name': f'{backing}{j}', 'backing': backing, 'mod': 2, 'rem': j,
+                        'N': lim['ND'] // 2, 'all_i': 10})
     return out
 
 
 def make(ld, n, backing):
+    """backing: list | dict | dict over an upstream pipeline that yields the
+    same examples (so the same oracle applies to split/shard of derived
+    datasets, not only of sources)."""
     if backing == 'list':
         return ld.new(list(range(n))), None
     keys = [f'k{i}' for i in range(n)]
-    return ld.new({k: i for i, k in enumerate(keys)}), keys
+    ds = ld.new({k: i for i, k in enumerate(keys)})
+    if backing == 'dict-map':
+        ds = ds.map(lambda x: x)
+    elif backing == 'dict-slice':
+        ds = ds[::-1][::-1]
+    elif backing == 'dict-concat':
+        h = n // 3
+        ds = ds[:h].concatenate(ds[h:2 * h], ds[2 * h:]) if n else ds
+    elif backing == 'dict-cache':
+        ds = ds.cache()
+    return ds, keys
 
 
 def check_case(ld, n, k, backing, all_i, res):
@@ -141,7 +158,8 @@ def run_shard(spec, res):
 def finalize(res, tier):
     lim = LIMITS[tier]
     expected = sum(n + 4 for n in range(lim['N'] + 1)) + \
-        sum(n + 4 for n in range(lim['ND'] + 1))
+        sum(n + 4 for n in range(lim['ND'] + 1)) + \
+        4 * sum(n + 4 for n in range(lim['ND'] // 2 + 1))
     if res.evaluations != expected:
         res.inconclusive_because(
             f'enumerated {res.evaluations} (n,k) cases, expected {expected}')
